@@ -12,6 +12,7 @@ let kind_of = function
   | "S1" -> KS (z_of_int 1) | "S5" -> KS (z_of_int 5) | "S16" -> KS (z_of_int 16)
   | "AI" | "PA" -> KAI | "AF" -> KAF | "AO" -> KAO | "AT" -> KAT
   | "PS" -> KPS (z_of_int 16)
+  | "CO" -> KCO | "ATM" -> KATM
   | _ -> failwith "kind"
 let is_float k = (k = "F" || k = "AF")
 let is_str k = (k = "S1" || k = "S5" || k = "S16")
@@ -53,7 +54,7 @@ let () = each_line (fun line ->
           List.map (fun kv -> match String.index_opt kv '=' with
               | Some p -> (z_of_string (String.sub kv 0 p), chars_of_string (String.sub kv (p+1) (String.length kv - p - 1)))
               | None -> failwith "opt") (split_on ',' opts) in
-      let arrayk = (match k with KAI | KAF | KAO | KAT -> true | _ -> false) in
+      let arrayk = (match k with KAI | KAF | KAO | KAT | KATM -> true | _ -> false) in
       let e = { p_name = chars_of_string name; p_hash = arrayk; p_min = conv minc; p_max = conv maxc; p_map = mp } in
       let st0 = if is_str kind then bytes_of_hex init
         else List.map (fun s -> if is_float kind then z_of_hex8 s else z_of_string s) (split_on ',' init) in
